@@ -72,4 +72,8 @@ CLAIMED = {
    text="Batches of up to 24 (quick) / 96 (thorough) concurrent plan subprocesses in one working directory and one private TMPDIR over mixed inputs (same file many times, identical copies, stdin, both formats, failing inputs, own reports with hostile names, non-UTF-8 bytes); directory listings before/after, exit status and stdout equality with solitary runs, and an strace-based history monitor on every distinct solitary invocation (writes confined to TMPDIR, everything created is removed, no temp name shared between invocations).",
    note="Interleavings are sampled; the strace clause (name uniqueness + containment per run) is what makes the verdict independent of timing. Falls back to listings only if ptrace is unavailable (noted in the evidence).",
    technique="property-based testing (Hypothesis) of generated concurrent batches + trace-invariant monitoring (strace) of each run"),
+ "C11": dict(
+   text="Three generators attack totality: grammar-directed hostile projects, token-level corruptions of generated texts and of the repository's 24 fixtures, and coverage-guided fuzzing (atheris/libFuzzer with a token dictionary, fixture-seeded and empty corpus). Every outcome is classified (rejected with a parse-level error / accepted / accepted-infeasible); accepted inputs must schedule within a CPU bound, every leaf must be scheduled inside the horizon or unscheduled with a warning; anything else is an internal error bucketed by (type, innermost scriptplan frame).",
+   note="Liveness only up to the CPU bound (20 s, confirmed by solitary re-runs with twice the limit; otherwise inconclusive); SystemExit(1) after an error message counts as rejection (MessageHandler.error is the package's way to reject). libFuzzer runs are pinned by -seed/-runs only approximately.",
+   technique="property-based testing (Hypothesis: grammar-directed + mutation) and coverage-guided fuzzing (atheris) with a semantic oracle in the target"),
 }
